@@ -1,4 +1,5 @@
 import PeptVerif.Lemmas.ModTablesBridge
+import PeptVerif.Model.MassEnv
 /-!
 C03 — mass calculator ≡ composition calculator + residual delta.  Property theorems only.
 -/
@@ -111,6 +112,29 @@ theorem mass_eq_compMass_static (env : Env) (a : Annotation) (o : Opts)
       mass env a o = .ok (chemMassL (μ o.mono) c + d + o.loss + kProtons a o * (Gen.protonMass - hplus o.mono)
         + (gapSum env o.mono (Spec.placedMods a o.ion) + mapGap env o.mono a.seq map)) :=
   mass_eq_compMass_static_of_tables ion_tables_agree env a o st map hs hp hl hl' had had' hprec hres hcons hadj hion
+
+/-- **… for the modelled `parse_static_mods`**: the rule parser is no longer a parameter but the concrete model of the C12
+work package (`Static.parseStaticMods`: bracket groups with multipliers, `@`, comma-separated targets); only the
+per-value resolution `res` remains a parameter (C10) -/
+theorem mass_eq_compMass_static_concrete (res : ModVal → Res) (a : Annotation) (o : Opts)
+    (st : List Mod) (map : List (List Char × List Mod)) (hs : a.static = some st)
+    (hp : Static.parseStaticMods (some st) = .ok map)
+    (hl : o.isotopeMods = none) (hl' : a.isotope = none)
+    (had : o.adducts = none) (had' : a.adducts = none) (hprec : o.precision = none)
+    (hres : KnownResidues a.seq) (hcons : AllConsistent (Env.concrete res) o.mono (writtenMods a ++ mapMods map))
+    (hadj : (lookup o.ion neutralAdj).isSome = true)
+    (hion : o.ion = ionP ∨ o.ion = ionN ∨ (lookup o.ion Gen.ionComp).isSome = true) :
+    ∃ c d, compMass (Env.concrete res) a o.ion o.charge o.isotope none none o.useIsotopeOnMods = .ok (c, d) ∧
+      mass (Env.concrete res) a o = .ok (chemMassL (μ o.mono) c + d + o.loss
+        + kProtons a o * (Gen.protonMass - hplus o.mono)
+        + (gapSum (Env.concrete res) o.mono (Spec.placedMods a o.ion) + mapGap (Env.concrete res) o.mono a.seq map)) :=
+  mass_eq_compMass_static (Env.concrete res) a o st map hs (Env.concrete_parse res st map hp)
+    hl hl' had had' hprec hres hcons hadj hion
+
+-- non-vacuity: the rule `[+10][Acetyl]^2@T,N-Term` parses to T ↦ [10, Acetyl×2], N-Term ↦ [10, Acetyl×2]
+example : Static.parseStaticMods (some [⟨.str "[+10][Acetyl]^2@T,N-Term".toList, 1⟩])
+    = .ok [("T".toList, [⟨.int 10, 1⟩, ⟨.str "Acetyl".toList, 2⟩]),
+           ("N-Term".toList, [⟨.int 10, 1⟩, ⟨.str "Acetyl".toList, 2⟩])] := by decide +kernel
 
 /-- with exactly self-consistent rows (tabulated mass = mass of the composition in the mode; every numeric, formula and
 glycan modification is such a row) the gap term vanishes and the identity is `mass = chem_mass(comp) + δ + loss + k·ε` -/
